@@ -146,4 +146,59 @@ PROPS["C05"] = dict(
     design_ref="6 C05",
 )
 
+PROPS["C08"] = dict(
+    title="Transaction-local semantics: read-your-writes, last write wins, clean rollback",
+    modules=["FjallModel.Props.C08"],
+    theorems=["Fjall.Tx.c08_ryow", "Fjall.Tx.c08_point_scan_agree", "Fjall.Tx.c08_commit_final_write_once",
+              "Fjall.Tx.c08_commit_equals_view", "Fjall.Tx.c08_read_only_commit_emits_nothing"],
+    statements={
+        "c08_ryow": "forall snapshots and in-transaction programs (reads, scans with any bounds, inserts, removes, take/fetch_update/update_fetch "
+                    "with any update function, any number of keyspaces): every output = output of a plain map per keyspace with each write applied at once",
+        "c08_point_scan_agree": "(k,v) is in the transaction's scan view iff get k = some v",
+        "c08_commit_final_write_once": "the commit batch holds, per (keyspace,key) written, exactly the newest entry, once",
+        "c08_commit_equals_view": "applying the commit batch to the snapshot gives the transaction's final view",
+    },
+    engines=[dict(bin="tx", args=["--mode", "c08"], cases_quick=1600, cases_thorough=40000, profiles=["release"], profiles_thorough=["release", "dev"])],
+    rule="case = one transaction on the optimistic or the single-writer database (random), 1-2 keyspaces seeded with random rows, 3-25 ops over a "
+         "small colliding key alphabet (all read methods, all write methods, 5 update-function families), ending commit / rollback / drop; every "
+         "output compared with the Lean model and with a BTreeMap overlay oracle; content outside the transaction sampled before commit; final "
+         "content compared. non-trivial = a key written >= 2x, or a scan after a write to that keyspace",
+    trusted_base=["lsm-tree's merge of the ephemeral memtable into scans is modelled as 'own newest entry wins' and exercised",
+                  "single-writer seriality across threads (the mutex) is covered by the Conc stage"],
+    assumptions=["the snapshot is frozen (C05)", "one thread drives the transaction"],
+    level_text="Lean 4 refinement proof: the transaction model refines a plain map per keyspace for every program; commit batch characterised exactly; "
+               "tied to both transactional databases by per-operation output comparison",
+    level_note="trusted: Lean kernel; harness; lsm-tree memtable/merge; thread exclusion of single-writer transactions not yet in the model",
+    technique="Lean 4 proof (forward simulation to a reference map, list lemmas) + differential correspondence",
+    design_ref="6 C08",
+)
+
+PROPS["C07"] = dict(
+    title="Optimistic transactions are serializable",
+    modules=["FjallModel.Props.C07"],
+    theorems=["Fjall.Tx.c07_footprint_sound", "Fjall.Tx.c07_validated_commit_replays", "Fjall.Tx.c07_writes_marked",
+              "Fjall.Tx.c07_counterexample_size_of_unmarked"],
+    statements={
+        "c07_footprint_sound": "for every in-transaction program: if two snapshots agree on every key covered by the recorded footprints, all outputs and the write set are equal",
+        "c07_validated_commit_replays": "if validation finds no conflict with the transactions committed since the snapshot, re-executing the program on the state at the "
+                                        "commit point yields the same observations and the same commit batch (serializable in commit order)",
+        "c07_writes_marked": "every key written is in the conflict-key set",
+        "c07_counterexample_size_of_unmarked": "with size_of recording nothing (pre-fix), footprint soundness fails (finding F7, fixed)",
+    },
+    engines=[dict(bin="tx", args=["--mode", "c07"], cases_quick=1600, cases_thorough=50000, profiles=["release"], profiles_thorough=["release", "dev"])],
+    rule="case = history of <= 4 concurrently open optimistic transactions over 1-2 keyspaces driven from one thread: begin / any read or write "
+         "method / commit / rollback or drop / single-operation helper writes / tracker gc, 6-45 events over a small colliding key alphabet incl. "
+         "inverted and empty ranges; every output, commit outcome and the counters (seqno, visible, open snapshots, watermark) compared with the "
+         "Lean model; oracle: each committed writer's observations replayed serially at its commit point (read-only ones at their snapshot), "
+         "committed content = serial result after every commit. non-trivial = >= 2 commits and a writer overlapped another commit or a conflict occurred",
+    trusted_base=["commit is atomic under the oracle mutex (one thread drives the history; multi-thread commit interleavings are the Conc stage)",
+                  "history-level induction (pruning vs tracker invariant, real-time order) is stage 2; stage 1 proves the per-commit theorem"],
+    assumptions=["snapshots are frozen (C05)", "the tracker discipline holds (after the F5 fix)"],
+    level_text="Lean 4 theorems: footprint soundness for every read method and the per-commit serializability step, for all programs; tied to the "
+               "real OptimisticTxDatabase by comparing outcomes/observations of random concurrent histories and by a serial-replay oracle",
+    level_note="partial: multi-threaded commit schedules and the whole-history induction are not yet proved",
+    technique="Lean 4 proof (footprint soundness by case analysis on operations, agreement-on-footprint argument) + differential correspondence",
+    design_ref="6 C07",
+)
+
 ALL_IDS = [f"C{i:02d}" for i in range(1, 19)]
